@@ -627,9 +627,9 @@ const char *UtilContext::get_num(const char *token, uint32_t *num)
     return get_hex(token + 2, num);
   }
 
-  // Look for end incase there is an h there.
+  // Look for end of this number incase there is an h there.
   s = 0;
-  while (token[s] != 0) { s++; }
+  while (token[s] != 0 && token[s] != ' ') { s++; }
 
   if (s == 0) { return nullptr; }
 
